@@ -568,6 +568,51 @@ def _is_boolish(e: ast.AST) -> bool:
 # ----------------------------------------------------------------------------- tiny concrete evaluator
 
 
+CONST_METHODS = ("index", "count", "get", "keys", "values", "items", "startswith", "endswith", "lower", "upper", "strip", "split", "bit_length", "copy")
+_NOVALUE = object()
+
+
+def module_const_env(prog: Program, mod) -> dict:
+    """python values of the module-level constants of a module that are literals or are computed from other such
+    constants by slicing / len / + (e.g. OPTIONAL = ATTR_ORDER[2:]), keyed by name — an environment for ceval"""
+    env: dict = {}
+    for _ in range(3):
+        for st in mod.tree.body:
+            tgt = val = None
+            if isinstance(st, ast.Assign) and len(st.targets) == 1 and isinstance(st.targets[0], ast.Name):
+                tgt, val = st.targets[0].id, st.value
+            elif isinstance(st, ast.AnnAssign) and isinstance(st.target, ast.Name) and st.value is not None:
+                tgt, val = st.target.id, st.value
+            if tgt is None or tgt in env:
+                continue
+            try:
+                v = ceval(val, env)
+            except Exception:  # noqa: BLE001
+                continue
+            if isinstance(v, (int, float, str, bytes, tuple, bool)) or v is None:
+                env[tgt] = v
+    # constants imported from other modules of the package
+    for local, imp in getattr(mod, "imports", {}).items():
+        if imp and imp[0] == "sym" and local not in env:
+            try:
+                other = prog.module(imp[1])
+            except Exception:  # noqa: BLE001
+                continue
+            if other is mod:
+                continue
+            oenv = _MODENV.get((id(prog), other.name))
+            if oenv is None:
+                _MODENV[(id(prog), other.name)] = {}
+                oenv = module_const_env(prog, other)
+                _MODENV[(id(prog), other.name)] = oenv
+            if imp[2] in oenv:
+                env[local] = oenv[imp[2]]
+    return env
+
+
+_MODENV: dict = {}
+
+
 def ceval(expr: ast.AST, env: dict):
     """Evaluate an expression over a concrete environment keyed by *source text* of
     sub-expressions (``env["len(binning)"] = 5``, ``env["binning.closed"] = "right"``).
@@ -587,6 +632,36 @@ def ceval(expr: ast.AST, env: dict):
         if head[:1].isupper() and "." in d and d.count(".") == 1:  # Enum member, e.g. Closed.right
             return expr.attr
         raise Unknown(txt)
+    if isinstance(expr, (ast.Tuple, ast.List)) and not any(isinstance(x, ast.Starred) for x in expr.elts):
+        vals = [ceval(x, env) for x in expr.elts]
+        return tuple(vals) if isinstance(expr, ast.Tuple) else list(vals)
+    if isinstance(expr, ast.Dict) and all(k is not None for k in expr.keys):
+        return {ceval(k, env): ceval(v, env) for k, v in zip(expr.keys, expr.values)}
+    if isinstance(expr, ast.JoinedStr):
+        parts = []
+        for v in expr.values:
+            if isinstance(v, ast.Constant):
+                parts.append(str(v.value))
+            elif isinstance(v, ast.FormattedValue) and v.format_spec is None and v.conversion == -1:
+                parts.append(str(ceval(v.value, env)))
+            else:
+                raise Unknown(txt)
+        return "".join(parts)
+    if isinstance(expr, ast.Call) and isinstance(expr.func, ast.Name) and expr.func.id == "getattr" and len(expr.args) in (2, 3) and not expr.keywords:
+        name = ceval(expr.args[1], env)
+        key = f"{unparse(expr.args[0])}.{name}"
+        if key in env:
+            return env[key]
+        if len(expr.args) == 3:
+            return ceval(expr.args[2], env)
+        raise Unknown(key)
+    if isinstance(expr, ast.Call) and isinstance(expr.func, ast.Attribute) and expr.func.attr in CONST_METHODS and not expr.keywords:
+        try:
+            base = ceval(expr.func.value, env)
+        except Unknown:
+            base = _NOVALUE
+        if isinstance(base, (tuple, list, str, dict, bytes, int)) and not isinstance(base, bool):
+            return getattr(base, expr.func.attr)(*[ceval(a, env) for a in expr.args])
     if isinstance(expr, ast.UnaryOp):
         v = ceval(expr.operand, env)
         if isinstance(expr.op, ast.Not):
@@ -606,7 +681,7 @@ def ceval(expr: ast.AST, env: dict):
         return isinstance(expr.op, ast.And)
     if isinstance(expr, ast.BinOp):
         a, b = ceval(expr.left, env), ceval(expr.right, env)
-        table = {ast.Add: op.add, ast.Sub: op.sub, ast.Mult: op.mul, ast.BitAnd: op.and_, ast.BitOr: op.or_, ast.FloorDiv: op.floordiv, ast.Mod: op.mod}
+        table = {ast.Add: op.add, ast.Sub: op.sub, ast.Mult: op.mul, ast.BitAnd: op.and_, ast.BitOr: op.or_, ast.FloorDiv: op.floordiv, ast.Mod: op.mod, ast.LShift: op.lshift, ast.RShift: op.rshift, ast.BitXor: op.xor}
         for k, f in table.items():
             if isinstance(expr.op, k):
                 return f(a, b)
@@ -642,7 +717,10 @@ def ceval(expr: ast.AST, env: dict):
         return close(a, b)
     if isinstance(expr, ast.Subscript):
         base = ceval(expr.value, env)
-        if isinstance(base, (list, tuple, str, bytes)) and not isinstance(expr.slice, ast.Slice):
+        if isinstance(base, (list, tuple, str, bytes)) and isinstance(expr.slice, ast.Slice):
+            sl = expr.slice
+            return base[slice(*(None if b is None else ceval(b, env) for b in (sl.lower, sl.upper, sl.step)))]
+        if isinstance(base, (list, tuple, str, bytes, dict)) and not isinstance(expr.slice, ast.Slice):
             return base[ceval(expr.slice, env)]
         raise Unknown(txt)
     if isinstance(expr, ast.Call) and isinstance(expr.func, ast.Attribute) and expr.func.attr == "from_bytes" and (dotted(expr.func.value) or "") == "int" and expr.args:
@@ -658,10 +736,19 @@ def ceval(expr: ast.AST, env: dict):
         if isinstance(v, (bool, int)):
             return int(v).to_bytes(n, byteorder=bo)
         raise Unknown(txt)
-    if isinstance(expr, ast.Call) and isinstance(expr.func, ast.Name) and expr.func.id in ("len", "list", "range", "set", "sorted", "tuple", "min", "max", "sum", "all", "any", "abs") and not expr.keywords:
+    if isinstance(expr, ast.Call) and isinstance(expr.func, ast.Name) and expr.func.id in ("len", "list", "range", "set", "sorted", "tuple", "min", "max", "sum", "all", "any", "abs", "zip", "dict", "reversed") and not expr.keywords:
         import builtins
 
-        return getattr(builtins, expr.func.id)(*[ceval(a, env) for a in expr.args])
+        r = getattr(builtins, expr.func.id)(*[ceval(a, env) for a in expr.args])
+        return list(r) if expr.func.id in ("zip", "reversed") else r
+    if isinstance(expr, ast.Call) and isinstance(expr.func, ast.Name) and expr.func.id == "enumerate" and len(expr.args) in (1, 2):
+        start = 0
+        if len(expr.args) == 2:
+            start = ceval(expr.args[1], env)
+        for k in expr.keywords:
+            if k.arg == "start":
+                start = ceval(k.value, env)
+        return list(enumerate(ceval(expr.args[0], env), start))
     if isinstance(expr, ast.Call) and isinstance(expr.func, ast.Name) and expr.func.id in ("bool", "int", "str") and len(expr.args) == 1:
         return {"bool": bool, "int": int, "str": str}[expr.func.id](ceval(expr.args[0], env))
     raise Unknown(txt)
